@@ -153,7 +153,7 @@ def run(ctx, job):
         except ValueError as e:
             names = O.names_of(a, g)
             A, b = O.matrix_of(list(O.rows_of(a)) + list(O.rows_of(g)), names)
-            ctx.obligation("valueerror-only-if-infeasible", lp.feasible_formula(A, b))
+            ctx.obligation("valueerror-only-if-infeasible", lp.feasibility_claims(ctx.mode, A, b)[0])
             return {"cls": B.classify(e)}
         except Exception as e:
             ctx.expect("only-documented-exceptions", False, info=B.classify(e) + "@" + B.innermost_pacti_frame(e))
@@ -174,7 +174,7 @@ def run(ctx, job):
     except ValueError as e:
         names = O.names_of(tl, cx)
         A, b = O.matrix_of(list(O.rows_of(tl)) + list(O.rows_of(cx)), names)
-        ctx.obligation("valueerror-only-if-infeasible", lp.feasible_formula(A, b))
+        ctx.obligation("valueerror-only-if-infeasible", lp.feasibility_claims(ctx.mode, A, b)[0])
         return {"cls": B.classify(e)}
     except Exception as e:
         ctx.expect("only-documented-exceptions", False, info=B.classify(e) + "@" + B.innermost_pacti_frame(e))
